@@ -621,3 +621,139 @@ func runDoubleCheckedInsert(c *core.Ctx, pkgs []string, floor int) {
 		c.Floor("inserts of freshly created objects into map fields under a write lock", n, floor)
 	}
 }
+
+// runClosedChannelReceives (C19): a channel of pointers that one method of a struct closes (close(ch) on a field or on
+// a local copied from the field) hands nil to every receiver afterwards. Every receive from such a channel field in the
+// struct's other methods - other than a range loop, which ends - tests the received pointer (or the ok flag) before
+// using it.
+func runClosedChannelReceives(c *core.Ctx, pkgs []string, floor int) {
+	n := 0
+	for _, rel := range pkgs {
+		// channel fields that some function closes
+		closed := map[*types.Var]string{}
+		for _, g := range c.P.FuncsIn(rel) {
+			if g.Body == nil {
+				continue
+			}
+			info := g.Info()
+			ast.Inspect(g.Body, func(nd ast.Node) bool {
+				ce, ok := nd.(*ast.CallExpr)
+				if !ok || len(ce.Args) != 1 {
+					return true
+				}
+				if b, ok := core.Callee(info, ce).(*types.Builtin); !ok || b.Name() != "close" {
+					return true
+				}
+				x := ast.Unparen(derefLocal(g, ce.Args[0]))
+				if se, ok := x.(*ast.SelectorExpr); ok {
+					if v, ok := info.ObjectOf(se.Sel).(*types.Var); ok && v.IsField() {
+						if ch, ok := v.Type().Underlying().(*types.Chan); ok {
+							if _, isPtr := ch.Elem().Underlying().(*types.Pointer); isPtr {
+								closed[v] = g.Name
+							}
+						}
+					}
+				}
+				return true
+			})
+		}
+		if len(closed) == 0 {
+			continue
+		}
+		for _, g := range c.P.FuncsIn(rel) {
+			if g.Body == nil {
+				continue
+			}
+			info := g.Info()
+			fieldOf := func(x ast.Expr) *types.Var {
+				x = ast.Unparen(derefLocal(g, x))
+				// a local filled from a helper that returns the field (getConnsAndFactory): follow one call
+				if ce, ok := x.(*ast.CallExpr); ok {
+					if fn, ok := core.Callee(info, ce).(*types.Func); ok {
+						if h := c.P.FuncOf(fn); h != nil && h.Body != nil {
+							var got *types.Var
+							ast.Inspect(h.Body, func(m ast.Node) bool {
+								if se, ok := m.(*ast.SelectorExpr); ok {
+									if v, ok := h.Info().ObjectOf(se.Sel).(*types.Var); ok && closed[v] != "" {
+										got = v
+									}
+								}
+								return true
+							})
+							return got
+						}
+					}
+				}
+				if se, ok := x.(*ast.SelectorExpr); ok {
+					if v, ok := info.ObjectOf(se.Sel).(*types.Var); ok && closed[v] != "" {
+						return v
+					}
+				}
+				return nil
+			}
+			// multi-value definitions `conns, _ := c.getConnsAndFactory()` are not followed by derefLocal: resolve here
+			localFrom := map[types.Object]*types.Var{}
+			ast.Inspect(g.Body, func(nd ast.Node) bool {
+				as, ok := nd.(*ast.AssignStmt)
+				if !ok || len(as.Rhs) != 1 || len(as.Lhs) < 2 {
+					return true
+				}
+				if v := fieldOf(as.Rhs[0]); v != nil {
+					for _, l := range as.Lhs {
+						if id, ok := l.(*ast.Ident); ok && id.Name != "_" {
+							if t := info.TypeOf(id); t != nil && types.Identical(t.Underlying(), v.Type().Underlying()) {
+								localFrom[info.ObjectOf(id)] = v
+							}
+						}
+					}
+				}
+				return true
+			})
+			chanField := func(x ast.Expr) *types.Var {
+				if id, ok := ast.Unparen(x).(*ast.Ident); ok {
+					if v := localFrom[info.ObjectOf(id)]; v != nil {
+						return v
+					}
+				}
+				return fieldOf(x)
+			}
+			ast.Inspect(g.Body, func(nd ast.Node) bool {
+				cc, ok := nd.(*ast.CommClause)
+				if !ok || cc.Comm == nil {
+					return true
+				}
+				as, ok := cc.Comm.(*ast.AssignStmt)
+				if !ok || len(as.Rhs) != 1 {
+					return true
+				}
+				u, ok := ast.Unparen(as.Rhs[0]).(*ast.UnaryExpr)
+				if !ok || u.Op.String() != "<-" {
+					return true
+				}
+				fld := chanField(u.X)
+				if fld == nil {
+					return true
+				}
+				n++
+				// the first statement of the clause tests the pointer or the ok flag
+				tested := false
+				if len(cc.Body) > 0 {
+					if ifs, ok := cc.Body[0].(*ast.IfStmt); ok {
+						cond := core.ExprStr(ifs.Cond)
+						for _, l := range as.Lhs {
+							if id, ok := l.(*ast.Ident); ok && (cond == id.Name+" == nil" || cond == "!"+id.Name) {
+								tested = true
+							}
+						}
+					}
+				}
+				c.Check("receive-from-closable-channel-tests-nil", fmt.Sprintf("%s/<-%s#%d", g.Root().Name, fld.Name(), n), c.P.Pos(cc.Pos()), tested,
+					"the channel is closed by "+closed[fld]+": after that this receive yields nil, and the clause uses the received pointer without testing it (or the ok flag) first - a nil dereference in a background goroutine takes the process down")
+				return true
+			})
+		}
+	}
+	if floor > 0 {
+		c.Floor("receives from pointer channels that a sibling method closes", n, floor)
+	}
+}
